@@ -7,7 +7,8 @@ J=${1:-4}
 OUT=$(mktemp -d)
 ls -d seeded/C*/ | sed 's#/$##' | xargs -P "$J" -I{} sh -c '/venv/bin/python tools/seed_verify.py {} --skip-tests > '"$OUT"'/$(basename {}).json 2>/dev/null'
 /venv/bin/python - "$OUT" <<'PY'
-import json, glob, os, sys
+import json, glob, os, sys, re
+oos = set(re.findall(r"^\| (C\d\d-[\w-]+) \|", open("seeded/OUT_OF_SCOPE.md").read(), re.M)) if os.path.exists("seeded/OUT_OF_SCOPE.md") else set()
 rows, bad = [], 0
 for f in sorted(glob.glob(os.path.join(sys.argv[1], "*.json"))):
     name = os.path.basename(f)[:-5]
@@ -18,6 +19,9 @@ for f in sorted(glob.glob(os.path.join(sys.argv[1], "*.json"))):
         bad += 1
         continue
     ok = r.get("applies") and r.get("demo_ok") and r.get("caught")
+    if name in oos and r.get("applies") and r.get("demo_ok"):
+        rows.append((name, "out of scope", "applies=True demo=True caught=%s (deliberately not reported, see OUT_OF_SCOPE.md)" % r.get("caught"), ""))
+        continue
     bad += 0 if ok else 1
     c = list(r.get("checks", {}).values())
     first = (c[0].get("first") or [""])[0][:110] if c else ""
